@@ -20,7 +20,7 @@ var rules = []*Rule{
 	{ID: "R3", Title: "LOCKSET: every shared mutable field has a common guard", Props: []string{"C08", "C09", "C03"}, Run: func(p *Prog) []Ob { return append(append(ruleR3(p), ruleR3c(p)...), p.publishOrder()...) }},
 	{ID: "R6", Title: "SENTINEL-IDENTITY: compared sentinels arrive unwrapped and alive", Props: []string{"C03", "C04", "C09", "C10", "C12"}, Run: ruleR6},
 	{ID: "R7", Title: "TAXONOMY and GUARDS", Props: []string{"C04", "C03", "C07", "C09", "C10", "C11", "C12", "C14", "C19"}, Run: ruleR7},
-	{ID: "R8", Title: "KEY-EQUALITY: a hash hit is only a candidate", Props: []string{"C09", "C13", "C14", "C11"}, Run: func(p *Prog) []Ob { return append(ruleR8(p), p.collectLoopAscends()...) }},
+	{ID: "R8", Title: "KEY-EQUALITY: a hash hit is only a candidate", Props: []string{"C09", "C13", "C14", "C11"}, Run: func(p *Prog) []Ob { return append(append(ruleR8(p), p.collectLoopAscends()...), p.ownBackingArray()...) }},
 	{ID: "R10", Title: "DECODER-VALIDATION: nothing is returned before it is checked", Props: []string{"C14", "C07", "C05", "C11", "C09", "C01", "C17"}, Run: func(p *Prog) []Ob {
 		return append(append(append(ruleR10(p), p.wholeItems()...), p.eofOrigin()...), p.freshMessage()...)
 	}},
@@ -34,8 +34,8 @@ var rules = []*Rule{
 	{ID: "R16", Title: "INDEX-OPTIONAL: an index file may always be missing", Props: []string{"C11", "C07", "C08", "C20"}, Run: func(p *Prog) []Ob {
 		return append(append(ruleR16(p), p.reindexThresholdObligation()), p.rebuildUnderIndexLock()...)
 	}},
-	{ID: "R19", Title: "VERSION-DISPATCH exhaustive", Props: []string{"C17", "C13"}, Run: func(p *Prog) []Ob {
-		return append(append(append(ruleR19(p), p.keepRewriteVersionObligations()...), p.configuredVersionVerbatim()...), append(p.eagerMigrationByOption(), p.everySegment()...)...)
+	{ID: "R19", Title: "VERSION-DISPATCH exhaustive", Props: []string{"C17", "C13", "C15"}, Run: func(p *Prog) []Ob {
+		return append(append(append(ruleR19(p), p.keepRewriteVersionObligations()...), p.configuredVersionVerbatim()...), append(append(p.eagerMigrationByOption(), p.everySegment()...), p.sizeInConfiguredVersion()...)...)
 	}},
 	{ID: "R22", Title: "SEGMENT-TYPESTATE: no use of a segment after its files were removed", Props: []string{"C12", "C01"}, Run: ruleR22},
 	{ID: "R23", Title: "MULTI-DRIVER ACCOUNTING: a round's deletions are reported", Props: []string{"C12"}, Run: ruleR23},
@@ -59,9 +59,9 @@ var rules = []*Rule{
 	{ID: "R32", Title: "LAZY-LOG", Props: []string{"C14"}, Run: func(p *Prog) []Ob { return append(ruleR32(p), p.openIsLazy()...) }},
 	{ID: "R33", Title: "TIME-VERBATIM", Props: []string{"C01", "C10"}, Run: ruleR33},
 	{ID: "R34", Title: "SEGMENT-IDENTITY", Props: []string{"C01", "C12"}, Run: ruleR34},
-	{ID: "R35", Title: "LOOKUP-OUTCOMES", Props: []string{"C04", "C09", "C10"}, Run: ruleR35},
+	{ID: "R35", Title: "LOOKUP-OUTCOMES", Props: []string{"C04", "C09", "C10", "C03", "C08"}, Run: func(p *Prog) []Ob { return append(ruleR35(p), p.queryDecisionBasis()...) }},
 	{ID: "R36", Title: "BOUNDARY-HAND-OFF and INDEX-WRAPPERS", Props: []string{"C10", "C09", "C04", "C03", "C13"}, Run: func(p *Prog) []Ob {
-		return append(append(append(ruleR36(p), p.indexWrappers()...), p.statFresh()...), p.siblingOutcomes()...)
+		return append(append(append(ruleR36(p), p.indexWrappers()...), p.statFresh()...), append(p.siblingOutcomes(), p.cursorSiblings()...)...)
 	}},
 	{ID: "R39", Title: "PARAMS-FROM-OPTIONS", Props: []string{"C13", "C11"}, Run: ruleR39},
 	{ID: "R40", Title: "ERROR-DISCIPLINE: no error is dropped outside the clean-up idioms", Props: []string{"C06", "C05", "C01", "C14", "C11", "C12", "C17", "C20"}, Run: ruleR40},
